@@ -41,6 +41,8 @@ def mkcomp(d):
         return v if d[2] == "py" else np.bool_(v)
     if k == "i":
         v = int(d[1])
+        if d[2] == "u8":
+            return np.uint8(v)
         return v if d[2] == "py" else (np.int64(v) if d[2] == "np" else np.int32(v))
     if k == "f":
         v = d[1] / 8.0
@@ -63,6 +65,8 @@ def mkval(d):
         return [mkcomp(c) for c in d[1]]
     if k == "tuple":
         return tuple(mkcomp(c) for c in d[1])
+    if k == "gen":
+        return (x for x in [mkcomp(c) for c in d[1]])        # a one-shot iterable
     if k == "nparr":
         return np.array([mkcomp(c) for c in d[1]])
     if k == "str":
@@ -71,6 +75,13 @@ def mkval(d):
 
 
 TYPES = {"bool": bool, "int": int, "float": float, "complex": complex, "str": str}
+NPTYPES = {"bool": np.bool_, "int": np.int32, "float": np.float64, "complex": complex, "str": str}
+
+
+def mkkey(k, variant):
+    """the same index in another integer representation"""
+    k = int(k)
+    return [k, np.int64(k), np.int32(k)][variant % 3] if -2 ** 31 <= k < 2 ** 31 else k
 
 
 def canon_comp(x, tname):
@@ -143,6 +154,23 @@ def run_case(case):
     from mouette.mesh.data_container import DataContainer, CornerDataContainer
     corner = case.get("cont") == "corner"
     cont = CornerDataContainer(id="c") if corner else DataContainer(id="c")
+    # a sibling container built from a caller list, with an attribute of a colliding name: nothing the session does to
+    # `cont` (nor what the caller does to its list) may show on it
+    sib_src = [7, 8]
+    sib = DataContainer(data=sib_src, id="sib")
+    sib_src.append(9)
+    sib_attr = sib.create_attribute("a0", float, 2, dense=True)
+    sib_attr[1] = [1.5, 2.5]
+    sib_sp = sib.create_attribute("a1", int, 1)
+    sib_sp[0] = 4
+
+    def sibling_ok():
+        try:
+            return (len(sib) == 2 and sorted(sib.attributes) == ["a0", "a1"] and len(sib_attr) == 2
+                    and list(sib_attr[1]) == [1.5, 2.5] and list(sib_attr[0]) == [0.0, 0.0] and sib_sp[0] == 4 and sib_sp[1] == 0
+                    and len(sib_sp) == 1 and sib.get_attribute("a0") is sib_attr)
+        except Exception:  # noqa
+            return False
     refs = []
     out = []
     counter = [0]
@@ -155,7 +183,11 @@ def run_case(case):
         return "a%d" % a
 
     def names():
-        return sorted(int(k[1:]) for k in cont.attributes)
+        # attributes the session did not create (a leak from another container) are listed under negative ids
+        out_ = []
+        for i_, k in enumerate(sorted(cont.attributes)):
+            out_.append(int(k[1:]) if (k[:1] == "a" and k[1:].isdigit()) else -1000 - i_)
+        return sorted(out_)
 
     def read_row(at, k):
         """canonical row read through attr[k] (copied at once, nothing retained)"""
@@ -171,11 +203,14 @@ def run_case(case):
         return [canon_comp(v, t)], False
 
     def lens():
-        return [[a, len(cont.get_attribute(nm(a)))] for a in names()]
+        return [[a, len(cont.get_attribute(nm(a))) if a >= 0 else -1] for a in names()]
 
     def snapshot():
         snap = []
         for a in names():
+            if a < 0:
+                snap.append([a, []])
+                continue
             at = cont.get_attribute(nm(a))
             rows = []
             for k in range(len(cont)):
@@ -197,9 +232,20 @@ def run_case(case):
             if name == "create":
                 _, a, t, k, dense, d = op
                 dv = None if d is None else mkcomp(d)
+                form = (a + k + len(out)) % 4
+                ty = NPTYPES[t] if (a + len(out)) % 5 == 0 else TYPES[t]
                 with warnings.catch_warnings():
                     warnings.simplefilter("ignore")
-                    r = cont.create_attribute(nm(a), TYPES[t], k, dense=bool(dense), default_value=dv)
+                    if form == 0:
+                        r = cont.create_attribute(nm(a), ty, k, dense=bool(dense), default_value=dv)
+                    elif form == 1:
+                        r = cont.create_attribute(nm(a), ty, k, bool(dense), dv)                       # positional
+                    elif form == 2:
+                        r = cont.create_attribute(name=nm(a), data_type=ty, elem_size=k, dense=bool(dense), default_value=dv, size=None)
+                    elif dv is None and k == 1 and not dense:
+                        r = cont.create_attribute(nm(a), ty)                                            # every optional omitted
+                    else:
+                        r = cont.create_attribute(nm(a), ty, elem_size=k, default_value=dv, dense=bool(dense))
                 out.append(["ok"] if r is cont.get_attribute(nm(a)) else ["other", "create returned another object"])
             elif name == "delete":
                 cont.delete_attribute(nm(op[1]))
@@ -211,7 +257,7 @@ def run_case(case):
                 out.append(["ok"] if r is None else ["other", repr(r)])
             elif name == "as_array":
                 at = cont.get_attribute(nm(op[1]))
-                arr = at.as_array(len(cont))
+                arr = at.as_array() if (not isinstance(at._data, dict) and len(out) % 2) else at.as_array(len(cont))
                 n = len(cont)
                 arr = np.asarray(arr)
                 refs.append(("arr", arr, at.elemsize))
@@ -228,14 +274,17 @@ def run_case(case):
             elif name == "set":
                 at = cont.get_attribute(nm(op[1]))
                 val = mkval(op[3])
-                at[int(op[2])] = val
+                at[mkkey(op[2], len(out))] = val
                 if isinstance(val, np.ndarray) and val.size:
                     # scribble on the caller's array afterwards: the attribute must hold its own copy
                     val[...] = val[::-1].copy() if val.dtype.kind in "US" else val + 3
+                elif isinstance(val, list) and val:
+                    val[0] = "scribble"
+                    val.append(None)
                 out.append(["ok"])
             elif name == "get":
                 at = cont.get_attribute(nm(op[1]))
-                v = at[int(op[2])]
+                v = at[mkkey(op[2], len(out))]
                 t = at.type.name
                 if at.elemsize > 1:
                     if not isinstance(v, np.ndarray) or np.asarray(v).shape != (at.elemsize,):
@@ -276,7 +325,7 @@ def run_case(case):
                     out.append(["snap", snapshot()])
             elif name == "update":
                 at = cont.get_attribute(nm(op[1]))
-                v = at[int(op[2])]
+                v = at[mkkey(op[2], len(out))]
                 if at.elemsize > 1 and isinstance(v, np.ndarray) and np.asarray(v).shape == (at.elemsize,):
                     refs.append(("vec", v))
                 with warnings.catch_warnings():
@@ -321,6 +370,10 @@ def run_case(case):
                         items = [((fresh(), fresh()) if corner else fresh()) for _ in range(op[1])]
                         other = {"list": list, "tuple": tuple, "set": set}[op[2]](items)
                         cont += other
+                        if isinstance(other, list):
+                            other.append((0, 0) if corner else 0)      # the caller's list afterwards: must not show
+                        elif isinstance(other, set):
+                            other.clear()
                     elif name == "extend_other":
                         other = CornerDataContainer(id="o") if corner else DataContainer(id="o")
                         for _ in range(op[1]):
@@ -333,13 +386,20 @@ def run_case(case):
                             for k in range(op[1]):
                                 oa[k] = 1.0
                         cont += other
+                        if corner:
+                            other.append(fresh(), fresh())             # the operand afterwards: must not show
+                        else:
+                            other.append(fresh())
+                        if op[2] and sorted(other.attributes) != ["zz"]:
+                            raise RuntimeError("the operand of += gained attributes")
                     elif name == "extend_self":
                         cont += cont
                     elif name == "extend_list_bad":
                         items = [((fresh(), fresh()) if corner else fresh()) for _ in range(op[1])]
                         cont += items + [5]
                     else:
-                        bad = {"range": range(2), "nparray": np.array([1, 2]), "dict": {1: 2}, "none": None}[op[1]]
+                        bad = {"range": range(2), "nparray": np.array([1, 2]), "dict": {1: 2}, "none": None,
+                               "iter": iter([1, 2]), "gen": (x for x in [1, 2]), "keys": {1: 2}.keys(), "map": map(int, [1, 2])}[op[1]]
                         cont += bad
                     out.append(["grow", len(cont), lens()])
                 except Exception as ex:  # noqa
@@ -354,6 +414,8 @@ def run_case(case):
         except Exception as ex:  # noqa
             k = errkind(ex)
             out.append(["err", k] if not k.startswith("other:") else ["other", k[6:]])
+    if out and not sibling_ok():
+        out[-1] = ["other", "an independent container of the same session changed (shared state between containers)"]
     return out
 
 
